@@ -133,7 +133,54 @@ func (w *world) fixedFragmentLimit() {
 	w.end()
 }
 
+// fixedAckedHeadWedge (regression corpus, C02): a segment acknowledged individually while its
+// predecessors were still outstanding used to stay at the head of snd_buf for ever once the peer had
+// nothing left to send (snd_una never advanced, a receive window of 1 never re-opened).  History:
+// one reordered B->A datagram, a momentarily full receive queue, one lost WINS.
+func (w *world) fixedAckedHeadWedge() {
+	w.begin(cfg{}, 13)
+	w.stream = false
+	w.setNoDelay(w.a, 1, 10, 2, 1)
+	w.setNoDelay(w.b, 1, 10, 2, 1)
+	w.setWnd(w.b, 32, 1)
+	w.now = 0
+	take := func(q *[][]byte) [][]byte { o := *q; *q = nil; return o }
+	w.send(w.a, []byte{0})
+	w.flush(w.a, true)
+	for _, p := range take(&w.netAB) {
+		w.input(w.b, p, true, false)
+	}
+	w.recv(w.b, 100)
+	w.now = 10
+	w.flush(w.b, true)
+	x0 := take(&w.netBA) // ACK0 una=1 wnd=1: delayed
+	w.send(w.a, []byte{1})
+	w.send(w.a, []byte{2})
+	w.flush(w.a, true)
+	for _, p := range take(&w.netAB) {
+		w.input(w.b, p, true, false) // seg1 -> queue (full), seg2 -> rcv_buf
+	}
+	w.now = 20
+	w.flush(w.b, true)
+	x1 := take(&w.netBA) // ACK1, ACK2 una=2 wnd=0
+	for _, p := range x1 {
+		w.input(w.a, p, true, false)
+	}
+	for _, p := range x0 {
+		w.input(w.a, p, true, false) // stale: rmt_wnd back to 1, probing cancelled
+	}
+	w.recv(w.b, 100)
+	w.recv(w.b, 100)
+	w.now = 30
+	w.flush(w.b, true)
+	take(&w.netBA) // the WINS (una=3) is lost: last loss
+	w.send(w.a, []byte{3})
+	w.drain() // fair network from here: must reach zero backlog and deliver message 3
+	w.end()
+}
+
 func (w *world) fixedAll() {
+	w.fixedAckedHeadWedge()
 	w.fixedFragmentLimit()
 	w.fixedFastRecovery()
 	w.fixedBigMessage()
